@@ -90,9 +90,12 @@ def check_case(rng, X, desc):
     # the routine is handed the caller's own array (no defensive copy by the harness) in row-major, column-major and strided
     # layout: the data must come back untouched and the estimate must not depend on the layout
     from tempest.student import fit_mvstud as _fit
-    for lay in ("C", "F", "strided"):
+    for lay in ("C", "F", "strided", "read-only"):
         if lay == "C":
             Xl = np.ascontiguousarray(X).copy()
+        elif lay == "read-only":
+            Xl = np.ascontiguousarray(X).copy()
+            Xl.setflags(write=False)
         elif lay == "F":
             Xl = np.asfortranarray(X).copy(order="F")
         else:
@@ -122,7 +125,7 @@ def check_case(rng, X, desc):
         sdl = np.sqrt(np.diag(S))
         if float(np.max(np.abs(np.asarray(mu_l) - mu) / sdl)) > 1e-9 or float(np.max(np.abs(S_l - S) / np.outer(sdl, sdl))) > 1e-9:
             bad.append(("layout-dependent", f"fit_mvstud on a {lay}-layout copy of the same data gives another estimate"))
-    desc["layouts"] = 3
+    desc["layouts"] = 4
     # equivariance pairs
     s = 10.0 ** rng.uniform(-6, 6, d)
     t = rng.standard_normal(d) * 10 ** rng.uniform(-1, 2)
@@ -387,7 +390,7 @@ def run():
             ck.case(desc, nontrivial=desc["kind"] != "gauss")
             ck.event("fit_mvstud well-posedness + 3 equivariance pairs")
             ck.event("ModeStatistics.from_global/from_particles checked", 3)
-            ck.event("fits on the caller's own array in C / Fortran / strided layout (fitted twice)", desc.get("layouts", 0))
+            ck.event("fits on the caller's own array in C / Fortran / strided layout / read-only (fitted twice)", desc.get("layouts", 0))
             ck.event("mode fits on particles squeezed into a tiny part of the cube compared with the squeezed image", desc.get("squeezed", 0))
             ck.event("mode-statistics calls with a configured dof fallback (all paths incl. collapsed small labels)", desc.get("fallback_calls", 0))
             if nu is not None and np.isfinite(nu):
